@@ -306,14 +306,27 @@ theorem removeAll_frame (env : EnvId) (ids : List String) (s : State)
       exact mono ys _ h0
     · exact hall x hx
 
+/-- the hidden bindings are exactly bindings the loop identifiers had in frame `env` before the loop -/
+theorem hiddenVars_spec (s : State) (env : EnvId) (ids : List String) :
+    ∀ xv ∈ hiddenVars s env ids, xv.1 ∈ ids ∧ dictGet xv.1 (s.frame env).vars = some xv.2 := by
+  intro xv hxv
+  unfold hiddenVars at hxv
+  rw [List.mem_filterMap] at hxv
+  obtain ⟨x, hx, hm⟩ := hxv
+  cases hg : dictGet x (s.frame env).vars with
+  | none => rw [hg] at hm; cases hm
+  | some v => rw [hg] at hm; cases hm; exact ⟨hx, hg⟩
+
 /-- **for-cleanup.**  When a `for` statement ends with a runtime error, the error state is the
-    one of the loop proper with all loop variables removed from frame `env`; if that frame is a
-    proper dict (no duplicate keys), none of the loop variables is bound in it afterwards. -/
+    one of the loop proper with all loop variables removed from frame `env` (if that frame is a
+    proper dict — no duplicate keys — none of the loop variables is bound in it at that point) and
+    then the bindings the loop had hidden put back: nothing but what was bound before the loop. -/
 theorem for_cleanup_on_error {ld : Loader} {fuel env ids e body what pos s v m p t s'}
     (h : eval ld (fuel+1) env (.for ids e body what pos) s = .err v m p t s') :
     ∃ s1, evalFor ld fuel env ids e body what pos s = .err v m p t s1 ∧
-      s' = ids.foldl (fun s x => s.remove env x) s1 ∧
-      (NodupKeys (s1.frame env).vars → ∀ x ∈ ids, dictGet x (s'.frame env).vars = none) := by
+      s' = restoreVars env (hiddenVars s env ids) (ids.foldl (fun s x => s.remove env x) s1) ∧
+      (NodupKeys (s1.frame env).vars →
+        ∀ x ∈ ids, dictGet x ((ids.foldl (fun s x => s.remove env x) s1).frame env).vars = none) := by
   simp only [eval] at h
   cases hr : evalFor ld fuel env ids e body what pos s with
   | ok a s1 => rw [hr] at h; cases h
@@ -339,8 +352,18 @@ def forErr : Node := .for ["x"] (.list [n12] {}) nErr12 "" {}
 
 example {v m p t s'} (h : eval {} 20 1 forErr (initialState true []).1 = .err v m p t s') :
     ∃ s1, evalFor {} 19 1 ["x"] (.list [n12] {}) nErr12 "" {} (initialState true []).1 = .err v m p t s1 ∧
-      (NodupKeys (s1.frame 1).vars → dictGet "x" (s'.frame 1).vars = none) := by
+      (NodupKeys (s1.frame 1).vars →
+        dictGet "x" ((["x"].foldl (fun s x => s.remove 1 x) s1).frame 1).vars = none) := by
   obtain ⟨s1, h1, _, h3⟩ := for_cleanup_on_error h
   exact ⟨s1, h1, fun hn => h3 hn "x" (by simp)⟩
+
+-- a variable the loop variable had hidden is bound again, to its old value, after the failed loop
+#guard (match eval {} 20 1 forErr ((initialState true []).1.put 1 "x" (.int 7)) with
+  | .err (.int 12) _ _ _ s' => (match dictGet "x" (s'.frame 1).vars with | some (.int 7) => true | _ => false)
+  | _ => false)
+-- ... and after a loop that ends normally
+#guard (match eval {} 20 1 (.for ["x"] (.list [n12] {}) n12 "" {}) ((initialState true []).1.put 1 "x" (.int 7)) with
+  | .ok _ s' => (match dictGet "x" (s'.frame 1).vars with | some (.int 7) => true | _ => false)
+  | _ => false)
 
 end Ckl.C10
